@@ -74,6 +74,14 @@ CLAIMED = {
    text='Theorems by induction over ALL operation histories of the flow-mode state machine, for an arbitrary per-node encoder: flow output = header ++ batch encoding of the surviving nodes, code pages track the output, delete restores output and code-page state (Props/C17.lean, nothing partial). Tie: FLOW correspondence (whole histories, output after every step) + oracle against fresh batch encodings.',
    ref='§5 C17', technique='Lean 4 proof (induction over histories, encoder as parameter) + differential histories',
    note=TB + ' The per-node WBXML encoding is a parameter measured on the real encoder (the separate encoder model is tied by C02/C06). Two defects fixed.'),
+ 'C09': dict(
+   text='Kernel-checked theorem registry_preserved: every row of the registry pinned from the 0.11.10 tables (language entries, public identifiers numeric and textual, root, DTD, tags, attribute starts and values, extension values, namespace rows) is present with the same meaning in the tables regenerated from the current build, and decode/encode look-ups on published rows give the published answers (rows may be added). Exhaustive over every published row; the registry (lean/Wbxml/Registry.lean + corpus/registry_0_11_10.json) is committed once and never regenerated.',
+   ref='§5 C09', technique='Lean 4 proof by kernel evaluation: pinned registry vs regenerated tables',
+   note=TB + ' The pinned registry itself is trusted as the record of what 0.11.10 published. A failing row is replayed as a minimal WBXML document decoded by the current build.'),
+ 'C18': dict(
+   text='Theorems over an index-linked heap model of wbxml_tree.c (nodes with parent / first-child / previous / next links as the C struct has them): the link invariant is preserved by every API call and by all finite histories, adjacent text siblings are merged, the abstraction to a plain tree commutes with every operation (so histories ending in the same shape denote the same document), extraction detaches exactly the sub-tree, teardown releases every node exactly once (Props/C18.lean). Tie: TREE correspondence of whole histories on the real API under ASan/UBSan/LSan with the real links walked after each call; oracle: API-built tree vs wbxml_tree_from_xml of the equivalent text give identical XML and WBXML bytes.',
+   ref='§5 C18', technique='Lean 4 proof (invariant + abstraction by induction over histories) + lock-step differential histories',
+   note=TB + ' The encoders applied to the resulting tree are the models tied by C02/C05/C06. Known finding: extracting a node between two text siblings leaves them adjacent (not re-merged). One defect fixed (extract_node on a detached node).'),
  'C14': dict(
    text='Theorem schedule_independence for an abstract machine with read-only shared state and per-thread local state (any number of threads, any programs, any two complete interleavings: every thread sees exactly its sequential outputs), instantiated for the library through structural premises proved by kernel evaluation over the symbol table regenerated from the current build: no writable global/static object or section, no external symbol that POSIX allows to be non-reentrant or that mutates process state. Partial: a C-level data race is not expressible in the model; ThreadSanitizer runs of 2-16 threads compared with sequential runs are validation and counter-example search, not proof.',
    ref='§5 C14', technique='Lean 4 proof (induction over schedules) + decide over regenerated symbol dump; TSan differential run as validation',
